@@ -39,6 +39,10 @@ CHECKS = {
    "Per node class x parent class x zeal in {0, 1} the real LuceneCheck.check is run with the checks of sub-terms stubbed (clean / one-or-more messages): it never raises, yields strings only, leaves tree, checker, parents and module state untouched, checks every child once with the true parent chain; a node that is well formed by the spec predicate written from the statement (word without whitespace, fuzzy on a word with non-negative degree, proximity on a phrase, field name of word characters, value-like field expression, group / field group placement; with zeal also the two documented pitfalls) with clean children yields nothing; each listed ill-formed construct yields a message at its own node; a message below is propagated by operations, groups, fields, boosts and prefixes; __call__ is True iff errors() is empty. Unicode-sized regex classes are decided exactly by a derivative-based prover.",
    "A1-A10; math.copysign modelled as 'x < 0' (negative zero not modelled); L-IND is a paper lemma; Term / BaseGroup / NoneItem are not Lucene constructs and only totality is required of them.",
    "contract-based deductive verification: per-class acceptance / completeness / totality obligations on the real checker code with stubbed sub-term checks (z3 + exact regular-language reasoning)"),
+ "C15": ("proof", "3.C15",
+   "next_name is proved for names of ANY length (an arbitrary word over the alphabet followed by each letter of the live look-up table): it never raises on issued names, only the last position changes or one letter is appended, and the rank (length, rank of the last letter in the live table) strictly increases - hence the chain of issued names is injective for any number of operands. The naming loop is proved per operation class for a generic iteration with a symbolic operand index and current name (operand i gets the successor, name_to_path gains exactly that name -> path + (i,), the current name is written back, nothing else is written); non-operations name nothing and visit their children with index paths; TreeAutoNamer.visit names the root alone iff nothing was named; element_from_path is proved with a cut-point on its while loop; matching_from_names exhaustively on a finite table.",
+   "A1-A10; the induction over operands / tree nodes and 'strictly increasing => distinct' are paper steps; precondition: the tree carries no names yet.",
+   "contract-based deductive verification: successor strictness and generic-iteration (loop cut) obligations on the real naming code, z3 strings + integer sequences"),
 }
 PENDING = {
 }
